@@ -9,9 +9,25 @@ from sa.report import RULES, rules_for
 import sa.rules  # noqa
 
 TECH = {
-    "C11": "sibling AST normal-form comparison (async/telemetry erasure) + path-sensitive abstract interpretation of the request builders over a finite decision table",
+    "C01": "decision-table abstract interpretation of the selection resolver (every selection kind/path accounted for) + CFG dominance (typename flag) + def-use pairing of annotation and class names",
+    "C02": "def-use chain of the module text (only literal-preserving transformers) + directive-location/handler table agreement + shape extraction of the emitted execute call + graph-closure rules",
+    "C03": "abstract interpretation of the argument generator loop (wire key vs. Python parameter provenance) + shape extraction of the method template (fixed names) + sibling rules on the four clients",
+    "C04": "CFG must-pass (written => reported, validate before write) + table agreement (written names vs. collision list) + raise-discipline scan + library oracles (reserved types, enum reserved names)",
+    "C05": "decision-table abstract interpretation of the GraphQL-type -> annotation mappers (nullable-flag transfer) + shape extraction of the annotation helpers",
+    "C06": "decision-table abstract interpretation of the input mappers and default-value translator + ConstValueNode exhaustiveness oracle + information-flow check of the enum-literal context",
+    "C07": "abstract interpretation of the scalar annotation builders (wrapper innermost, emitted only when configured) + shape/information-flow check of the variables-dict serialize call",
+    "C08": "decision-table abstract interpretation of the unpack decision + effect-order analysis of the fragment DFS (post-order) + provenance of the fragments-module exclusion set",
+    "C09": "effect analysis (who writes / reads the used-enum list) + CFG dominance in generate() + closure/worklist discipline of the input dependency walk",
+    "C10": "order-taint analysis: set / directory-listing kind inference, ordered-use detection, order-insensitive sink classification, triaged site table with structural reasons; ambient-input and hidden-state scans",
+    "C11": "sibling AST normal-form comparison (async/telemetry erasure) + path-sensitive abstract interpretation of the request builders and upload extraction over a finite decision table",
     "C12": "path-sensitive abstract interpretation of get_data over the response decision table (Kleene 3-valued branch evaluation), x4 clients",
     "C13": "CFG dominance for the handshake order + decision-table abstract interpretation of the frame handler + installed-library signature oracle",
+    "C14": "shape extraction of the emitted builder classes/methods (wire names, None filter, assembly) + abstract interpretation of the runtime field builder (shared used-names set, recursive variable merge)",
+    "C15": "hook-table agreement + abstract interpretation of the dispatcher + write-set (effect) analysis of every bundled plugin hook + ImportFrom level/module-text consistency",
+    "C16": "shape extraction of the emitted graphql-core constructor calls against the installed to_kwargs oracle (keyword coverage, attribute pass-through, lazy references, variable names)",
+    "C17": "CFG must-pass (every setting validated on every path; validators before the first write effect over the call graph) + abstract evaluation of the validators over small domains + assume_valid oracle",
+    "C18": "regex -> NFA over character classes with universality check by subset construction (tokeniser coverage) + CFG order rules in process_name + scope-collision mechanism scan",
+    "C19": "SDL-only datum scan (ast_node reads) + decision-table abstract interpretation of the introspection client + request-parameter provenance chain",
 }
 NA = {}
 checks, na = [], []
